@@ -306,10 +306,8 @@ def lexDocLine (line : String) : Option DocLine :=
     | some m => some (.msg (nonEmpty m))
     | none => none
 
-/-- byte index of the first non-whitespace character (`find(..).unwrap_or_default()`) -/
-def leadingWs (s : String) : Nat :=
-  let cs := s.toList
-  if cs.all Char.isWhitespace then 0 else (String.ofList (cs.takeWhile Char.isWhitespace)).utf8ByteSize
+/-- number of leading whitespace characters (`chars().take_while(|c| c.is_whitespace()).count()`; since the repair of D-16a / D-16b) -/
+def leadingWs (s : String) : Nat := (s.toList.takeWhile Char.isWhitespace).length
 
 /-- `sanitize_message_lines`, first pass: common leading whitespace -/
 def commonWs : Option Nat → List (Option (List MComp)) → Option Nat
@@ -317,11 +315,14 @@ def commonWs : Option Nat → List (Option (List MComp)) → Option Nat
   | acc, none :: ls => commonWs acc ls
   | acc, some m :: ls =>
     match m.head? with
-    | some (.text t) => commonWs (some (match acc with | some a => min a (leadingWs t) | none => leadingWs t)) ls
+    | some (.text t) =>
+      -- a line that consists of whitespace only is skipped; an all-whitespace text followed by a link counts in full
+      if m.length == 1 && leadingWs t == t.length then commonWs acc ls
+      else commonWs (some (match acc with | some a => min a (leadingWs t) | none => leadingWs t)) ls
     | some (.link _) => some 0
     | none => commonWs acc ls
 
-/-- drop `n` bytes of leading whitespace (the generated comments indent with ASCII blanks only) -/
+/-- drop the first `n` characters (all of the text when it is shorter) -/
 def dropBytes (n : Nat) (s : String) : String := String.ofList (s.toList.drop n)
 
 def sanitizeLines (ls : List (Option (List MComp))) : List MComp :=
